@@ -114,6 +114,8 @@ class P:
             return "W64"
         if v == "Self":
             return "Self"
+        if v == "Ordering":
+            return "ordering"
         if v == "Option":
             self.eat("<")
             t = self.ty()
@@ -602,6 +604,11 @@ class Tr:
             if op in ("==", "!="):          # #[derive(PartialEq)] on the limb array
                 r = "(list_eqb Z.eqb %s %s)" % (paren(a1), paren(a2))
                 return bs, r if op == "==" else "(negb %s)" % r, "bool"
+            if op in ("<", "<=", ">", ">=") and "U.cmp" in self.sigs:
+                b3, a3, t3 = self.apply(f, "U.cmp", [("__atom", paren(a2))], env, recv=("__atom", paren(a1)))
+                pat = {"<": "Lt => true | _ => false", ">": "Gt => true | _ => false",
+                       "<=": "Gt => false | _ => true", ">=": "Lt => false | _ => true"}[op]
+                return bs + b3, "(match %s with %s end)" % (a3, pat), "bool"
             if op in self.binops:           # impl_bin_op!(Add, add, AddAssign, add_assign, wrapping_add)
                 b3, a3, t3 = self.apply(f, "U." + self.binops[op], [("__atom", paren(a2))], env, recv=("__atom", paren(a1)))
                 return bs + b3, a3, t3
@@ -725,6 +732,11 @@ class Tr:
         if fe[0] == "path" and fe[1][0] in ("u128", "Self") and len(fe[1]) == 2:
             name = "dw_" + fe[1][1]
         name = self.alias.get(name, name)
+        if name in ("crate::algorithms::cmp", "algorithms::cmp"):
+            # slice comparison: NOT translated; Model/Add.v limbs_cmp (tie: C15 / C04 correspondence)
+            b1, a1, _ = self.ex(f, args[0], env)
+            b2, a2, _ = self.ex(f, args[1], env)
+            return b1 + b2, "(Add.limbs_cmp %s %s)" % (paren(a1), paren(a2)), "ordering"
         if name == "algorithms::div":
             # top-level slice division: NOT translated; Model/Div.v div_kernel (tie: C14 correspondence)
             ts = []
@@ -1218,6 +1230,7 @@ TARGETS = [
     ("src/add.rs", UINT_IMPL, "overflowing_add", "U.overflowing_add", "g_overflowing_add", "uint"),
     ("src/add.rs", UINT_IMPL, "wrapping_add", "U.wrapping_add", "g_wrapping_add", "uint"),
     ("src/cmp.rs", "pub fn is_zero", "is_zero", "U.is_zero", "g_is_zero", "uint"),
+    ("src/cmp.rs", "Ord for Uint<BITS, LIMBS>", "cmp", "U.cmp", "g_cmp", "uint"),
     ("src/div.rs", UINT_IMPL, "div_rem", "U.div_rem", "g_div_rem", "uint"),
     ("src/div.rs", UINT_IMPL, "wrapping_div", "U.wrapping_div", "g_wrapping_div", "uint"),
     ("src/div.rs", UINT_IMPL, "wrapping_rem", "U.wrapping_rem", "g_wrapping_rem", "uint"),
@@ -1235,6 +1248,7 @@ TARGETS = [
     ("src/add.rs", UINT_IMPL, "saturating_sub", "U.saturating_sub", "g_saturating_sub", "uint"),
     ("src/add.rs", UINT_IMPL, "wrapping_sub", "U.wrapping_sub", "g_wrapping_sub", "uint"),
     ("src/add.rs", UINT_IMPL, "wrapping_neg", "U.wrapping_neg", "g_wrapping_neg", "uint"),
+    ("src/add.rs", UINT_IMPL, "abs_diff", "U.abs_diff", "g_abs_diff", "uint"),
 ]
 
 
@@ -1283,7 +1297,7 @@ def translate(repo):
             status[gname] = "unsupported: %s" % ex
     head = ("(* GENERATED by tools_rs2v.py from the current text of /repo — do not edit.\n"
             "   One definition per translated Rust function; see Gen/Prim.v for the primitives. *)\n"
-            "From RV.Model Require Import Base Word.\nFrom RV.Model Require Limbs Div UDiv.\nFrom RV.Gen Require Import Prim.\n\n")
+            "From RV.Model Require Import Base Word.\nFrom RV.Model Require Limbs Add Div UDiv.\nFrom RV.Gen Require Import Prim.\n\n")
     return head + "\n\n".join(tr.out) + "\n", status
 
 
